@@ -74,6 +74,7 @@ type Explorer struct {
 	SolverCmd string
 	Abstract  bool // bvmul/bvudiv/bvurem on >= AbstractMinW bits as shared UFs
 	AbstractW int
+	AbstractG bool
 	Workers   int
 	MaxPaths  int
 	Pinned    map[string]uint64 // concrete mode
@@ -307,6 +308,7 @@ func (x *Explorer) runPath(solver *smt.Solver, script []int) (res *PathResult) {
 	C := smt.NewCtx()
 	C.AbstractMulDiv = x.Abstract
 	C.AbstractMinW = x.AbstractW
+	C.AbstractGuards = x.AbstractG
 	p := &Path{C: C, S: solver, X: x, script: append([]int(nil), script...), names: map[string]int{},
 		known: map[string]*smt.Term{}, reached: map[string]bool{}, knownHits: map[string]Violation{},
 		pinned: x.Pinned, concrete: x.Concrete}
